@@ -5,8 +5,8 @@ META = {
   technique="contract harnesses (assume Inv+pre / call real method / assert post over the stream view) discharged by Kani/CBMC for every word width and endianness",
   text="Proof, per operation and for all inputs and all invariant-satisfying pre-states (hence all histories, by induction over the history): "
        "new, write_bits, flush, into_inner, drop of BufBitWriter meet the stream-view contract of DESIGN 2.1 (canonical image compared bit by bit at a symbolic index) "
-       "for BE/LE x u8..u128; write_unary is bounded in the observation window (K words) and not counted as proved.",
-  note="Trusted: rustc/Kani/CBMC; ghost backend Rec; layout predicates transcribed from the statement. Backend kinds are covered through the backends' own contracts (C13, C11) plus parametricity. write_unary's zero-word loop is bounded (K=2 quick / 4 thorough words).",
+       "for BE/LE x u8..u128; write_unary is proved for every value by Verus on the extracted text (zero-word loop by invariant, one unit per word type); its Kani obligation (window of K words) stays as a bounded cross-check with counterexamples.",
+  note="Trusted: rustc/Kani/CBMC; ghost backend Rec; layout predicates transcribed from the statement. Backend kinds are covered through the backends' own contracts (C13, C11) plus parametricity. Verus units instantiate WW::Word per word type (listed substitutions) and take to_be/to_le by axioms discharged by Kani std_spec obligations.",
   design="4/C01"),
 }
 
@@ -16,22 +16,22 @@ META.update({
   category="proof",
   text="Proof per operation, for every Inv_R state (every buffer fill level incl. more than one word buffered), every symbolic stream (strict or zero-extended) and every n: "
        "read_bits, peek_bits (+repeatability), skip_bits_after_peek, clone, new of BufBitReader (BE/LE x u8..u64) and of the unbuffered BitReader return exactly the canonical-layout bits, advance by exactly n and re-establish the invariant; "
-       "hence every history, by induction. read_unary/skip_bits word loops are bounded in the backend window (K words).",
-  note="Trusted: Kani/CBMC, ghost backend Oracle, mk_buffer (the invariant's constructor). Zero extension is the contract of MemWordReader (bounded array length). read_unary and skip_bits are bounded (K=2/4 words).",
+       "hence every history, by induction. read_unary/skip_bits word loops are proved unbounded by Verus on the extracted text (BufBitReader per word type, unbuffered BitReader), with the Kani window-bounded obligations kept as cross-checks.",
+  note="Trusted: Kani/CBMC, ghost backend Oracle, mk_buffer (the invariant's constructor). Zero extension is the contract of MemWordReader (bounded array length). Verus units: word instantiation, count-zeros/byte-order axioms discharged by Kani std_spec obligations; streams assumed shorter than 2^64 bits.",
   design="4/C02"),
  "C07": dict(
   technique="contract harnesses (position view p = cursor*BITS - bits_in_buffer) discharged by Kani/CBMC",
   category="proof",
   text="Proof that bit_pos reports the view position p for every Inv_R state, that every operation moves p by exactly the number of bits it consumes, and that set_bit_pos(q) re-establishes the invariant at p = q for every q in 0..=length (strict) / any q (zero-extended), aligned or not; "
        "by the C02 contracts all later results then equal those of a fresh reader that consumed q bits. Buffered (u8..u64) and unbuffered readers over a seekable ghost backend with a symbolic word offset.",
-  note="Backends' own seek contracts are C13 (memory) and C11 (byte adapter). Word loops bounded as in C02.",
+  note="Backends' own seek contracts are C13 (memory) and C11 (byte adapter). Word loops of read_unary/skip_bits: position clauses proved unbounded by the Verus units of C02.",
   design="4/C07"),
  "C09": dict(
   technique="contract harnesses with a strict/zero-extended ghost backend (Kani/CBMC) + client obligations on truncated valid streams over the abstract model",
   category="proof",
   text="Proof that on a strict backend every primitive returns Ok only if all bits it consumes lie in the data and Err only if a bit beyond the end is needed (a failed peek leaves the reader unchanged), and never fails on a zero-extended one; "
        "for gamma, delta, zeta3 (all table options) and omega: a codeword lying entirely within the data decodes to its value even when the table look-ahead would peek past the end, a cut codeword is an error.",
-  note="Code-level part is over the abstract model (trait contract); strict memory backends by their own contract (C13). read_unary/skip_bits bounded in K.",
+  note="Code-level part is over the abstract model (trait contract); strict memory backends by their own contract (C13). read_unary/skip_bits error clauses are also proved unbounded by the Verus reader units (backend errors assumed to be end-of-data errors).",
   design="4/C09"),
  "C11": dict(
   technique="contract harnesses over faulty std::io objects (symbolic short counts / Interrupted / errors per call) discharged by Kani/CBMC",
@@ -89,10 +89,11 @@ META.update({
   note="Dispatch-object lengths are part of C10. Unary/Rice/Golomb writes bounded by the 256-bit model; their len functions are proved for every value.",
   design="4/C06"),
  "C08": dict(
-  technique="Verus loop invariants on the extracted real text of the default copy_to/copy_from; Kani contract harnesses for the optimised paths",
+  technique="Verus loop invariants on the extracted real text of the default and the optimised copy_to/copy_from; Kani contract harnesses (window-bounded, with counterexamples) for the optimised paths",
   category="proof",
-  text="Proof (Verus, unbounded n, generic reader and writer, default and checks configurations): the default chunked copy_to/copy_from append exactly the reader's next n bits and advance the reader by n, issuing only calls within the trait preconditions.",
-  note="Optimised BufBitReader::copy_to / BufBitWriter::copy_from obligations are registered separately (see known findings). Rewrites: map_err(..)? desugaring (R6), core::cmp::min -> if/else.",
+  text="Proof (Verus, unbounded n): the default chunked copy_to/copy_from (generic reader and writer, default and checks configurations) and the optimised BufBitReader::copy_to (u8..u64 words, every Inv_R state including more than one word buffered) and BufBitWriter::copy_from (u8..u128 words) append exactly the reader's next n bits, advance the reader by n, re-establish the representation invariants (so every continuation behaves as after bit-by-bit transfer, by C01/C02) and issue only calls within the trait preconditions. "
+       "Kani obligations from arbitrary invariant states (window-bounded) with continuation harnesses provide counterexamples and the observational check.",
+  note="Optimised-path units: word instantiation, read_bits/write_bits of the same object taken by contract (discharged by Kani c02.read_bits / c01.write_bits), rotate/cast/min by axioms discharged by Kani std_spec obligations; default configuration for the optimised paths (checks configuration by Kani). Rewrites: map_err(..)? desugaring (R6), min -> if/else, let-introduction.",
   design="4/C08"),
 })
 
